@@ -23,8 +23,12 @@ CLAIMED = {
     "C05": {"design_ref": "5/C05", "technique": T,
             "text": "Solver-decided span/slicing kernels on ALL ASCII inputs up to 3 characters (take, take_while, span, "
                     "skip_space, expect, complete), ParseError::new on all inputs up to 2 (thorough 3-4) characters over "
-                    "{LF, space, a} with every sub-span (no panic, line/column inside the input) and the default nesting "
-                    "limit. Whole-parser totality, stack depth and Display are NOT covered."},
+                    "{LF, space, a} with every sub-span (no panic, line/column inside the input), the default nesting "
+                    "limit; on non-ASCII text: take / take_while / skip_space on every 2-byte character followed by any "
+                    "ASCII character (spans count characters and end on character boundaries) and the quoted-string "
+                    "lexer on a backslash followed by every 2-byte character (error span = that character, no "
+                    "char-boundary panic; 3-byte characters in the thorough tier). Whole-parser totality, stack depth "
+                    "and Display are NOT covered."},
     "C06": {"design_ref": "5/C06", "technique": T,
             "text": "Solver-decided on ALL inputs within the bounds: \\xHH accepted iff two hex digits (found the '+' sign "
                     "defect), \\OOO iff three octal digits <= 377, byte separators, the raw-string delimiter scan (<= 3, thorough "
@@ -38,8 +42,12 @@ CLAIMED = {
             "text": "Solver-decided: the engine's own `contains` arm (length dispatch over all 15 array sizes, anchor drawn "
                     "inside 1..len, empty pattern) with the SIMD bit and the random anchor made symbolic by two counted "
                     "rewrites, and the delegated sliceslice Avx2Searcher for every needle, EVERY anchor position and every "
-                    "haystack within small sizes, against naive search. 16/32-byte block boundaries, needles > 4 in long "
-                    "haystacks, the memchr/memmem paths and the USE_AVX2 latch are NOT covered."},
+                    "haystack within small sizes, against naive search; the single-byte shortcut (either latch value) and the "
+                    "scalar fallback (latch off: the real MemmemSearcher, memchr::memmem builder and its Rabin-Karp search "
+                    "on values <= 4 bytes, 2- and 3-byte patterns) against naive search, with memchr::memchr replaced by "
+                    "its contract and the AVX2 packed-pair finder reported unavailable. 16/32-byte block boundaries, "
+                    "needles > 4 in long haystacks, memmem's vector paths (values >= 16 bytes), memchr's own dispatch "
+                    "and the USE_AVX2 latch are NOT covered."},
     "C11": {"design_ref": "5/C11", "technique": T,
             "text": "Solver-decided wildcard semantics: Wildcard::<false/true>::new + is_match agree with the documented "
                     "semantics for every pattern of 1-2 (thorough 3) bytes over {a,A,*,?,\\}, every value up to 2 (3) bytes "
